@@ -7,8 +7,6 @@
    every history of rows that parse, any length / affiliates / order /
    opening position: a panic of the ledger is
      - an operator overflow, or
-     - the all-affiliate assert_eq! of set_latest_post_status
-       (portfolio_status.rs:100: rounding residue), or
      - a strictly positive / strictly negative constrained quantity
        (PosDecimal / NegDecimal product, quotient or ratio) that rounded to
        ZERO ([strict_site]: underflow).
@@ -17,7 +15,13 @@
    the no-buyers assertion, and (since the fix "treat a superficial loss that
    rounds to zero effective cents as no superficial loss") the
    LessEqualZeroDecimal conversion of the effective-cent value - is
-   unreachable under rounding too. *)
+   unreachable under rounding too.  So are, since the fix "compute the
+   all-affiliate share balance with one expression everywhere", the
+   all-affiliate assert_eq! of set_latest_post_status (a rounding residue
+   before: a third class) and the Buy arm's conversion of the all-affiliate
+   balance (C05Assert: the assertion compares two evaluations of one
+   expression).  The opening position must be a value of the arithmetic
+   ([init_fits]). *)
 From Coq Require Import List NArith ZArith QArith Qcanon Bool Lia.
 From ACB Require Import Base.Outcome Base.QcExtra Base.Fit Base.Arith Model.Tx Model.Ledger Model.Sfl
      Model.DeltaList Proofs.Tactics Proofs.FitProps Proofs.C04Inv Proofs.C03Conserve Proofs.C05Sites
